@@ -361,6 +361,17 @@ func c07OptsJSON(g kit.G, list bool) string {
 			return `{"Field":` + c07Pick(g, c07Ints, "int") + `}`
 		}
 	}
+	if c07Bool(g, 35, "limitcombo") {
+		// every subset of the limit options, with zero and non-zero values: the
+		// handler derives the missing limits from the ones that are set
+		var parts []string
+		for _, f := range []string{"ShardMaxMatchCount", "TotalMaxMatchCount", "ShardRepoMaxMatchCount", "MaxDocDisplayCount", "MaxMatchDisplayCount"} {
+			if c07Bool(g, 50, "has"+f) {
+				parts = append(parts, `"`+f+`":`+c07Pick(g, []string{"0", "1", "5", "100000", "-1"}, "limitv"))
+			}
+		}
+		return "{" + strings.Join(parts, ",") + "}"
+	}
 	fields := []string{"EstimateDocCount", "Whole", "ShardMaxMatchCount", "TotalMaxMatchCount", "ShardRepoMaxMatchCount", "MaxWallTime", "FlushWallTime", "MaxDocDisplayCount", "MaxMatchDisplayCount", "NumContextLines", "ChunkMatches", "UseBM25Scoring", "Trace", "DebugScore", "SpanContext", "Unknown", "numcontextlines"}
 	n := g.Int(0, 6, "nopts")
 	var parts []string
